@@ -119,6 +119,32 @@ theorem insert_existing_rebinds_values (h : Heap) (c : Cont) (i : Nat) (k : K) (
     rw [← e] at hpk
     exact absurd hpk hne
 
+theorem setitem_keeps_item_list (h : Heap) (c : Cont) (k : K) (v : V) : (setitem h c k v).2.items = c.items := by
+  unfold setitem
+  split
+  · rfl
+  · exact append_keeps_item_list h c k v
+
+theorem update_keeps_item_list (ps : List (K × V)) : ∀ (h : Heap) (c : Cont),
+    (setAll h c ps).2.items = c.items := by
+  induction ps with
+  | nil => intro h c; rfl
+  | cons p r ih =>
+    intro h c
+    obtain ⟨k, v⟩ := p
+    simp only [setAll]
+    rw [ih, setitem_keeps_item_list]
+
+/-- `popall(key)` / `discard(key)` of a present key rebind the item list like `__delitem__`; of an absent
+    key they change nothing -/
+theorem popall_present_rebinds_item_list (h : Heap) (c : Cont) (k : K)
+    (hk : c.dict.any (fun p => p.1 == k) = true) : (discard h c k).2.items = h.iNext := by
+  unfold discard; simp only [hk, if_true]; rfl
+
+theorem discard_absent_noop (h : Heap) (c : Cont) (k : K)
+    (hk : c.dict.any (fun p => p.1 == k) = false) : discard h c k = (h, c) := by
+  unfold discard; simp [hk]
+
 theorem clear_rebinds_item_list (h : Heap) (c : Cont) : (clear h c).2.items = h.iNext ∧ (clear h c).2.dict = [] :=
   ⟨rfl, rfl⟩
 
